@@ -32,6 +32,7 @@ pub struct Run {
     hashes: HashSet<u64>,
     samples: Vec<String>,
     printed_violations: u64,
+    pub sig_counts: BTreeMap<String, u64>,
     pub hash_cap: usize,
 }
 
@@ -81,6 +82,7 @@ impl Run {
             hashes: HashSet::new(),
             samples: Vec::new(),
             printed_violations: 0,
+            sig_counts: BTreeMap::new(),
             hash_cap: 400_000,
         }
     }
@@ -162,7 +164,9 @@ impl Run {
     /// Record a violation. `sig` is the root-cause signature used to match known findings.
     pub fn violation(&mut self, kind: &str, sig: &str, detail: String) {
         self.violations += 1;
-        if self.printed_violations < 40 {
+        let c = self.sig_counts.entry(sig.to_string()).or_insert(0);
+        *c += 1;
+        if *c <= 3 && self.printed_violations < 60 {
             self.printed_violations += 1;
             let mut d = detail;
             if d.len() > 6000 {
@@ -209,6 +213,15 @@ impl Run {
         ));
         let mut first = true;
         for (k, v) in &self.counters {
+            if !first {
+                s.push(',');
+            }
+            first = false;
+            s.push_str(&format!("\"{}\":{}", json_escape(k), v));
+        }
+        s.push_str("},\"sig_counts\":{");
+        first = true;
+        for (k, v) in &self.sig_counts {
             if !first {
                 s.push(',');
             }
